@@ -20,8 +20,9 @@
    Image OBJECTS (model/ImageHist.v: the fields of HalfBlockImage / FullBlockImage / KittyImage /
    Sixel that survive between calls, step : state -> op -> state * observation): the theorems of the
    last two sections hold for ALL histories of Resize / Draw (Show) / Destroy on one object, boxes
-   in [0, 2^24) (0 = an empty box).  A Show of a KittyImage that has no current picture is the
-   guarded finding kitty-no-encoding (C20_kitty_no_encoding_refuted).  The encoder goroutine of
+   in [0, 2^24) (0 = an empty box), without a guard: the defect kitty-no-encoding (a KittyImage
+   without a current picture was placed all the same) is fixed in /repo and the model follows the
+   fixed code; C20_kitty_no_encoding_refuted is about the code before the fix.  The encoder goroutine of
    KittyImage / Sixel is modelled as finished before the next call (the harness waits for it). *)
 From Vx Require Import base.Prelude model.Image model.ImageHist proofs.ImageProofs proofs.ImageHistProofs.
 
@@ -317,39 +318,52 @@ Print Assumptions C20_empty_box.
 (* ---------------------------------------------------------------- kitty / sixel objects, all histories *)
 
 (* CellSize() after any history of Resize / Show / Destroy on a new KittyImage (kind 2) or Sixel
-   (kind 3) is the cell size of the last Resize; for a box of at least one cell it lies inside the
-   box and does not exceed the cells of the source *)
-Theorem C20_gfx_cell_size_after_history : forall kind wPix hPix cw ch ops g w h,
+   (kind 3) is the cell size of the last Resize - 0 x 0 before the first Resize and, for a
+   KittyImage, after Destroy (last_box) -; for a box of at least one cell it lies inside the box and
+   does not exceed the cells of the source *)
+Theorem C20_gfx_cell_size_after_history : forall kind wPix hPix cw ch ops g,
   geom_ok wPix hPix cw ch = true -> forallb hop_ok ops = true ->
-  gfx_exec kind wPix hPix cw ch gworld0 ops = Some g -> last_box None ops = Some (w, h) ->
-  kitty_cell_size wPix hPix w h cw ch = Some (o_w (g_obj g), o_h (g_obj g)) /\
-  (0 < w -> 0 < h ->
-   0 <= o_w (g_obj g) <= w /\ 0 <= o_h (g_obj g) <= h /\
-   o_w (g_obj g) <= ceil_div wPix cw /\ o_h (g_obj g) <= ceil_div hPix ch).
+  gfx_exec kind wPix hPix cw ch gworld0 ops = Some g ->
+  match last_box kind None ops with
+  | Some (w, h) =>
+      kitty_cell_size wPix hPix w h cw ch = Some (o_w (g_obj g), o_h (g_obj g)) /\
+      (0 < w -> 0 < h ->
+       0 <= o_w (g_obj g) <= w /\ 0 <= o_h (g_obj g) <= h /\
+       o_w (g_obj g) <= ceil_div wPix cw /\ o_h (g_obj g) <= ceil_div hPix ch)
+  | None => o_w (g_obj g) = 0 /\ o_h (g_obj g) = 0
+  end.
 Proof. exact gfx_cell_size_after_history_new. Qed.
 Print Assumptions C20_gfx_cell_size_after_history.
 
-(* Full statement wanted: forall histories, gfxhist_ok (the predicate of c20_gfxhist_violations:
-   an image with a current picture whose cells fit the window is placed once at the window's origin
-   and the terminal then shows exactly the picture of the LAST Resize; its data are transmitted when
-   the terminal does not hold them, at most once, never while nothing was resized; otherwise nothing
-   is placed or sent; the placement of the frame before is deleted on the refresh; Destroy deletes
-   the image).  It is false for a KittyImage shown while it has no current picture
-   (C20_kitty_no_encoding_refuted).  Proved: it holds for every history outside that guard ... *)
+(* The model (of the fixed code) satisfies the predicate the differential run applies to the
+   implementation (c20_gfxhist_violations) on EVERY history, kitty and sixel: an image with a current
+   picture (the last Resize gave a picture that is not empty, no Destroy since) whose cells fit the
+   window is placed once at the window's origin and the terminal then shows exactly the picture of
+   the LAST Resize; its data are transmitted when the terminal does not hold them, at most once,
+   never while nothing was resized; otherwise - before the first Resize, after a Resize into an empty
+   box, after Destroy, window too small - nothing is placed or sent; the placement of the frame
+   before is deleted on the refresh; Destroy deletes the image. *)
+Theorem C20_gfx_model_ok : forall kind wPix hPix cw ch ops obs,
+  kind = 2 \/ kind = 3 -> geom_ok wPix hPix cw ch = true -> forallb hop_ok ops = true ->
+  gfx_run kind wPix hPix cw ch gworld0 ops = Some obs ->
+  gfxhist_ok kind wPix hPix cw ch hspec0 (combine ops obs) = true.
+Proof. exact gfx_model_ok_new. Qed.
+Print Assumptions C20_gfx_model_ok.
+
+(* the earlier, guarded statement and its sixel instance: corollaries *)
 Theorem C20_gfx_model_ok_guarded : forall kind wPix hPix cw ch ops obs,
   kind = 2 \/ kind = 3 -> geom_ok wPix hPix cw ch = true -> forallb hop_ok ops = true ->
   gfx_run kind wPix hPix cw ch gworld0 ops = Some obs ->
   no_encoding_guard kind false (combine ops obs) = false ->
   gfxhist_ok kind wPix hPix cw ch hspec0 (combine ops obs) = true.
-Proof. exact gfx_model_ok_new. Qed.
+Proof. intros kind wPix hPix cw ch ops obs Hk G OK R _. exact (gfx_model_ok_new kind wPix hPix cw ch ops obs Hk G OK R). Qed.
 Print Assumptions C20_gfx_model_ok_guarded.
 
-(* ... and for a Sixel without any guard *)
 Theorem C20_sixel_model_ok : forall wPix hPix cw ch ops obs,
   geom_ok wPix hPix cw ch = true -> forallb hop_ok ops = true ->
   gfx_run 3 wPix hPix cw ch gworld0 ops = Some obs ->
   gfxhist_ok 3 wPix hPix cw ch hspec0 (combine ops obs) = true.
-Proof. exact sixel_model_ok_new. Qed.
+Proof. intros wPix hPix cw ch ops obs G OK R. exact (gfx_model_ok_new 3 wPix hPix cw ch ops obs (or_intror eq_refl) G OK R). Qed.
 Print Assumptions C20_sixel_model_ok.
 
 Theorem C20_gfx_run_total : forall kind wPix hPix cw ch ops g,
@@ -358,17 +372,23 @@ Theorem C20_gfx_run_total : forall kind wPix hPix cw ch ops g,
 Proof. intros kind wPix hPix cw ch ops g G OK. exact (gfx_run_total kind wPix hPix cw ch G ops g OK). Qed.
 Print Assumptions C20_gfx_run_total.
 
-(* The finding kitty-no-encoding: a 20x40 pixel image, cells of 8x16 pixels.  Resize(3,3), Show:
-   placed, 20x40 transmitted.  Resize(0,2) makes an empty picture (CellSize 0x0): png.Encode fails,
-   uploaded stays true.  Show: KittyImage.Draw places it all the same (a 0x0 placement fits every
-   window) and the terminal shows the 20x40 picture of the Resize before. *)
+(* The defect kitty-no-encoding, on the step function of the code BEFORE the fix (kitty_step_old:
+   Draw without the zero-cell test, Destroy without "k.w, k.h = 0, 0"): a 20x40 pixel image, cells of
+   8x16 pixels.  Resize(3,3), Show: placed, 20x40 transmitted.  Resize(0,2) makes an empty picture
+   (CellSize 0x0): png.Encode fails, uploaded stays true.  Show: the old Draw placed it all the same
+   (a 0x0 placement fits every window) and the terminal showed the 20x40 picture of the Resize
+   before; the fixed code places nothing on the same history. *)
 Theorem C20_kitty_no_encoding_refuted :
   let ops := [HResize 3 3; HShow 10 5; HResize 0 2; HShow 10 5] in
-  let obs := [(0, 3, 3, 20, 40, 0, 0, 0, 0, 0); (0, 3, 3, 0, 0, 1, 1, 20, 40, 1);
+  let old := [(0, 3, 3, 20, 40, 0, 0, 0, 0, 0); (0, 3, 3, 0, 0, 1, 1, 20, 40, 1);
               (0, 0, 0, 0, 0, 0, 0, 0, 0, 0); (0, 0, 0, 1, 0, 1, 0, 20, 40, 0)] in
-  gfx_run 2 20 40 8 16 gworld0 ops = Some obs /\
-  gfxhist_ok 2 20 40 8 16 hspec0 (combine ops obs) = false /\
-  no_encoding_guard 2 false (combine ops obs) = true.
+  let fixed := [(0, 3, 3, 20, 40, 0, 0, 0, 0, 0); (0, 3, 3, 0, 0, 1, 1, 20, 40, 1);
+                (0, 0, 0, 0, 0, 0, 0, 0, 0, 0); (0, 0, 0, 1, 0, 0, 0, 0, 0, 0)] in
+  kitty_run_old 20 40 8 16 gworld0 ops = Some old /\
+  gfxhist_ok 2 20 40 8 16 hspec0 (combine ops old) = false /\
+  no_encoding_guard 2 false (combine ops old) = true /\
+  gfx_run 2 20 40 8 16 gworld0 ops = Some fixed /\
+  gfxhist_ok 2 20 40 8 16 hspec0 (combine ops fixed) = true.
 Proof. vm_compute. repeat split; reflexivity. Qed.
 Print Assumptions C20_kitty_no_encoding_refuted.
 
@@ -423,15 +443,16 @@ Example C20_example_block_history :
   bsum ops = (Some (2, 1), false).
 Proof. vm_compute. repeat split; reflexivity. Qed.
 
-(* kitty objects: the guard of C20_gfx_model_ok_guarded is satisfiable; data are sent once per
-   picture, not again while unchanged, again after Destroy *)
+(* kitty objects, a history in the domain of C20_gfx_model_ok: (CellSize, placed, sent) per step.
+   Nothing is placed before the first Resize, after Destroy, after a Resize into an empty box; data
+   are sent once per picture, not again while unchanged, again after Destroy + Resize *)
 Example C20_example_gfx_history :
-  let ops := [HResize 3 3; HShow 10 5; HShow 10 5; HResize 2 2; HShow 1 1; HShow 2 2; HDestroy; HResize 2 2; HShow 4 4] in
+  let ops := [HShow 10 5; HResize 3 3; HShow 10 5; HShow 10 5; HResize 2 2; HShow 1 1; HShow 2 2; HDestroy;
+              HShow 4 4; HResize 2 2; HShow 4 4; HResize 0 2; HShow 4 4] in
   geom_ok 20 40 8 16 = true /\ forallb hop_ok ops = true /\
-  match gfx_run 2 20 40 8 16 gworld0 ops with
-  | Some obs => no_encoding_guard 2 false (combine ops obs) = false /\
-                map (fun o : hobs => let '(_, _, _, _, _, placed, sent, _, _, _) := o in (placed, sent)) obs =
-                [(0, 0); (1, 1); (1, 0); (0, 0); (0, 0); (1, 1); (1, 0); (0, 0); (1, 1)]
-  | None => False
-  end.
+  option_map (map (fun o : hobs => let '(_, w, h, _, _, placed, sent, _, _, _) := o in (w, h, placed, sent)))
+             (gfx_run 2 20 40 8 16 gworld0 ops) =
+  Some [(0, 0, 0, 0); (3, 3, 0, 0); (3, 3, 1, 1); (3, 3, 1, 0); (2, 2, 0, 0); (2, 2, 0, 0); (2, 2, 1, 1);
+        (0, 0, 1, 0); (0, 0, 0, 0); (2, 2, 0, 0); (2, 2, 1, 1); (0, 0, 0, 0); (0, 0, 0, 0)] /\
+  last_box 2 None ops = Some (0, 2).
 Proof. vm_compute. repeat split; reflexivity. Qed.
